@@ -20,7 +20,8 @@ struct KeyQuery {
 }
 
 fn gen_key_query(r: &mut Rng) -> KeyQuery {
-    match r.below(6) {
+    match r.below(8) {
+        6 | 7 => KeyQuery { sql: "SELECT city AS k0, COUNT(*) AS m0, SUM(x) AS m1 FROM visits GROUP BY city".into(), table: "visits", private_key: "city", public_key: None },
         0 => KeyQuery { sql: "SELECT city AS k0, COUNT(*) AS m0 FROM users GROUP BY city".into(), table: "users", private_key: "city", public_key: None },
         1 => KeyQuery { sql: "SELECT city AS k0, tier AS k1, COUNT(*) AS m0, AVG(age) AS m1 FROM users GROUP BY city, tier".into(), table: "users", private_key: "city", public_key: Some("tier") },
         2 => KeyQuery { sql: "SELECT user_id AS k0, SUM(amount) AS m0 FROM orders GROUP BY user_id".into(), table: "orders", private_key: "user_id", public_key: None },
@@ -308,6 +309,19 @@ pub fn run(p: &Params) -> Report {
                 users.cols[ci].ty = qrlew::data_type::DataType::text_interval("A".to_string(), "z".to_string());
                 for row in users.rows.iter_mut() {
                     // a few shared cities, some singletons
+                    row[ci] = if r.chance(2, 3) {
+                        qrlew::data_type::value::Value::text(r.pick(CITIES).to_string())
+                    } else {
+                        qrlew::data_type::value::Value::text(format!("V{}", r.below(40)))
+                    };
+                }
+            }
+            {
+                // the same for visits.city
+                let visits = w.cat.table_mut("visits").unwrap();
+                let ci = visits.col("city").unwrap();
+                visits.cols[ci].ty = qrlew::data_type::DataType::text_interval("A".to_string(), "z".to_string());
+                for row in visits.rows.iter_mut() {
                     row[ci] = if r.chance(2, 3) {
                         qrlew::data_type::value::Value::text(r.pick(CITIES).to_string())
                     } else {
